@@ -200,6 +200,9 @@ tagspec(struct scope *s)
 		if (kind == TYPEENUM) {
 			t = mktype(kind, PROPSCALAR|PROPARITH|PROPREAL|PROPINT);
 			t->base = et;
+			t->size = et ? et->size : 0;
+			t->align = et ? et->align : 0;
+			t->u.basic.issigned = et ? et->u.basic.issigned : false;
 		} else {
 			t = mktype(kind, 0);
 			t->size = 0;
